@@ -327,7 +327,7 @@ func (e *apiEnv) doClient(route string, expectM string, call func() (any, error)
 }
 
 var nameAlphabet = []string{"svc", "job", "off", "nosuch", "no%2Fsuch", "a%20b", strings.Repeat("n", 300), "caf%C3%A9", "svc-0"}
-var numAlphabet = []string{"-1", "0", "1", "2", "3", "2147483648", "9223372036854775808", "x", "1.5", "%20", "1e3"}
+var numAlphabet = []string{"-1", "0", "1", "2", "3", "2147483648", "9223372036854775807", "9223372036854775802", "9223372036854775808", "x", "1.5", "%20", "1e3"}
 
 func apiYAML(dir string) string {
 	af := AFile{Procs: []AProc{
